@@ -949,6 +949,49 @@ impl<F: FromUniformBytes<64> + Ord> MockProver<F> {
             )
         };
 
+        // Check the constraints guarded by an additive selector (trash arguments).
+        // The enforced identity is `sum_i r^i * c_i - (1 - q) * trash = 0` for a
+        // random challenge `r` and a free `trash` cell: on the rows where the
+        // selector `q` equals one, every `c_i` must vanish; on the other rows the
+        // trash cell absorbs the constraints.
+        let trash_errors = self.cs.trashcans.iter().enumerate().flat_map(|(trash_index, trash)| {
+            gate_row_ids
+                .iter()
+                .filter(|row| load(trash.selector(), **row) == Value::Real(F::ONE))
+                .flat_map(|row| {
+                    trash
+                        .constraint_expressions()
+                        .iter()
+                        .enumerate()
+                        .filter_map(|(poly_index, poly)| {
+                            let constraint: metadata::Constraint = (
+                                metadata::Gate::from((trash_index, trash.name())),
+                                poly_index,
+                                "additive-selector constraint",
+                            )
+                                .into();
+                            match load(poly, *row) {
+                                Value::Real(x) if x.is_zero_vartime() => None,
+                                Value::Real(_) => Some(VerifyFailure::ConstraintNotSatisfied {
+                                    constraint,
+                                    location: FailureLocation::find_expressions(
+                                        &self.cs,
+                                        &self.regions,
+                                        *row,
+                                        Some(poly).into_iter(),
+                                    ),
+                                    cell_values: vec![],
+                                }),
+                                Value::Poison => {
+                                    Some(VerifyFailure::ConstraintPoisoned { constraint })
+                                }
+                            }
+                        })
+                        .collect::<Vec<_>>()
+                })
+                .collect::<Vec<_>>()
+        });
+
         let mut cached_table = Vec::new();
         let mut cached_table_identifier = Vec::new();
         // Check that all lookups exist in their respective tables.
@@ -1092,6 +1135,7 @@ impl<F: FromUniformBytes<64> + Ord> MockProver<F> {
         let mut errors: Vec<_> = iter::empty()
             .chain(selector_errors)
             .chain(gate_errors)
+            .chain(trash_errors)
             .chain(lookup_errors)
             .chain(perm_errors)
             .collect();
